@@ -76,6 +76,16 @@ def trace_jobs(ck, tier, rng):
             jobs.append({"id": "s%d_%d" % (k, P), "gen": "forest", "par": ",".join(map(str, par)), "dens": 60, "lowfill": 60,
                          "P": P, "ps": rng.choice([1, 2, 3]), "relax": 1, "maxsuper": rng.choice([2, 4]), "pert": 30,
                          "seed": rng.randrange(10 ** 6), "out": os.path.join(out, "s%d_%d.ndjson" % (k, P))})
+    # relaxed supernodes with padding zeros below a pipelined chain: general sparse patterns (not forest-realising ones), relax >= 2,
+    # narrow panels, several workers, delays after the critical sections -- the busy-update path of p?gstrf_panel_bmod then meets
+    # relaxed supernodes that were pruned by a column of the busy chain (round-8 seed C03-busy-append-skipped-on-zero-segment)
+    for i in range(24 if tier == "quick" else 300):
+        j = pipe.random_job(rng, 7000 + i, out, nmax=40, threads=(3, 4, 4, 8), kinds=("random", "random", "banded", "grid"))
+        j.update(ps=rng.choice([1, 1, 2]), relax=rng.choice([2, 3, 4, 6]), maxsuper=rng.choice([4, 8, 16]), pert=rng.choice([20, 40, 60]))
+        if j["gen"] == "random":
+            j.update(n=rng.randint(16, 40), dens=rng.choice([80, 120, 200]), fulldiag=1)
+        j.update(focus="unlock", focuspct=rng.choice([30, 50, 70]), focusus=rng.choice([100, 300, 600]))
+        jobs.append(j)
     return jobs, out
 
 
